@@ -92,22 +92,22 @@ Proof. exact drf_phases. Qed.
 Print Assumptions C13_drf_between_barriers.
 
 (* refutations outside the class = the recorded findings F19 a/b/c *)
-Theorem C13_alias_via_view_refuted : barriers probe_alias = [] /\ classify_pair probe_alias 3 4 = 1.
+Theorem C13_alias_via_view_refuted : barriers probe_alias = [] /\ classify_pair probe_alias true 3 4 = 1.
 Proof. exact alias_via_view_refuted. Qed.
 Print Assumptions C13_alias_via_view_refuted.
 
 Theorem C13_cross_level_backedge_refuted :
-  barriers probe_cross_level = [5] /\ ~ In 7 (barriers probe_cross_level) /\ classify_pair probe_cross_level 3 5 = 2.
+  barriers probe_cross_level = [5] /\ ~ In 7 (barriers probe_cross_level) /\ classify_pair probe_cross_level false 3 5 = 2.
 Proof. exact cross_level_backedge_refuted. Qed.
 Print Assumptions C13_cross_level_backedge_refuted.
 
-Theorem C13_ctl_between_refuted : barriers probe_branch = [4] /\ classify_pair probe_branch 2 5 = 3.
+Theorem C13_ctl_between_refuted : barriers probe_branch = [4] /\ classify_pair probe_branch true 2 5 = 3.
 Proof. exact ctl_between_refuted. Qed.
 Print Assumptions C13_ctl_between_refuted.
 
 Example C13_same_level_nonvacuous :
   must_sync (nth 2 probe_loop (mkInfo 0 BOther [] [] 0 false 0)) (nth 3 probe_loop (mkInfo 0 BOther [] [] 0 false 0)) = true /\
-  barriers probe_loop = [6; 5; 4] /\ classify_pair probe_loop 3 4 = 0.
+  barriers probe_loop = [6; 5; 4] /\ classify_pair probe_loop true 3 4 = 0 /\ classify_pair probe_loop false 4 3 = 0.
 Proof. exact same_level_nonvacuous. Qed.
 Print Assumptions C13_same_level_nonvacuous.
 
